@@ -6,5 +6,8 @@ mod tls;
 
 pub use broker::{Broker, LinkType, Server};
 
+#[cfg(feature = "verif-hooks")]
+pub(crate) use broker::verif;
+
 // pub trait IO: AsyncRead + AsyncWrite + Send + Sync + Unpin {}
 // impl<T: AsyncRead + AsyncWrite + Send + Sync + Unpin> IO for T {}
